@@ -1,1 +1,413 @@
-fn main(){}
+//! C20 — the actix-web and axum extractors add nothing and lose nothing.
+//!
+//! Differential: extractor output == the framework's own extractor on an identical request
+//! composed with `deserr::deserialize`.
+
+use actix_web::FromRequest as _;
+use axum::extract::FromRequest as _;
+use axum::response::IntoResponse;
+use deserr::actix_web::{AwebJson, AwebQueryParameter};
+use deserr::axum::AxumJson;
+use deserr::errors::JsonError;
+use deserr::Deserr;
+use dv_core::catalogue::{Camel, Point, Shape, Strict};
+use dv_core::evidence::{open_known, Report, Tier};
+use dv_core::genp::{Gen, GenCfg};
+use dv_core::model::{ToModel, M};
+use dv_core::pv::PV;
+use dv_core::runner::{run_cases, Case, GenFn, Stats, Verdict};
+use dv_core::trace::Script;
+use dv_core::ty::{Described, Ty};
+use rand::Rng;
+use serde_json::{json, Value as J};
+use std::sync::Arc;
+
+#[derive(Deserr, Debug)]
+#[deserr(deny_unknown_fields, rename_all = camelCase)]
+pub struct QSearch {
+    pub q: String,
+    #[deserr(default)]
+    pub page_size: Option<String>,
+    #[deserr(default)]
+    pub sort_by: Option<String>,
+}
+impl ToModel for QSearch {
+    fn to_model(&self) -> M {
+        M::Struct {
+            name: "QSearch".into(),
+            fields: vec![("q".into(), self.q.to_model()), ("page_size".into(), self.page_size.to_model()), ("sort_by".into(), self.sort_by.to_model())],
+        }
+    }
+}
+
+#[derive(Debug, Clone, PartialEq)]
+enum Obs {
+    /// extraction succeeded with this value
+    Ok(M),
+    /// rejected: status, content-type, body
+    Rejected(u16, Option<String>, Vec<u8>),
+}
+
+fn show(o: &Obs) -> String {
+    match o {
+        Obs::Ok(m) => format!("Ok({})", m.show()),
+        Obs::Rejected(s, ct, b) => format!("Rejected(status {s}, content-type {ct:?}, body {:?})", String::from_utf8_lossy(b)),
+    }
+}
+
+#[derive(Debug, Clone, PartialEq)]
+enum Class {
+    WellTyped,
+    DeserrFailure,
+    FrameworkRejection,
+}
+
+struct Req {
+    body: Vec<u8>,
+    ctype: Option<String>,
+}
+
+fn actix_req(r: &Req) -> (actix_web::HttpRequest, actix_web::dev::Payload) {
+    let mut t = actix_web::test::TestRequest::post().uri("/x");
+    if let Some(ct) = &r.ctype {
+        t = t.insert_header(("content-type", ct.as_str()));
+    }
+    t.set_payload(r.body.clone()).to_http_parts()
+}
+
+async fn actix_resp(e: actix_web::Error) -> Obs {
+    let resp = e.error_response();
+    let status = resp.status().as_u16();
+    let ct = resp.headers().get("content-type").and_then(|v| v.to_str().ok()).map(|s| s.to_string());
+    let body = actix_web::body::to_bytes(resp.into_body()).await.map(|b| b.to_vec()).unwrap_or_default();
+    Obs::Rejected(status, ct, body)
+}
+
+async fn actix_json<T: Deserr<JsonError> + ToModel + 'static>(r: &Req) -> (Obs, Obs, Class) {
+    // the extractor under test
+    let (req, mut pl) = actix_req(r);
+    let got = match AwebJson::<T, JsonError>::from_request(&req, &mut pl).await {
+        Ok(v) => Obs::Ok(v.into_inner().to_model()),
+        Err(e) => actix_resp(e).await,
+    };
+    // the reference: the framework's own extractor on an identical request, then deserr
+    let (req, mut pl) = actix_req(r);
+    let (want, class) = match actix_web::web::Json::<J>::from_request(&req, &mut pl).await {
+        Err(e) => (actix_resp(e).await, Class::FrameworkRejection),
+        Ok(doc) => match deserr::deserialize::<T, _, JsonError>(doc.into_inner()) {
+            Ok(v) => (Obs::Ok(v.to_model()), Class::WellTyped),
+            Err(e) => (Obs::Rejected(400, Some("text/plain".into()), e.to_string().into_bytes()), Class::DeserrFailure),
+        },
+    };
+    (got, want, class)
+}
+
+fn axum_req(r: &Req) -> axum::extract::Request {
+    let mut b = http::Request::builder().method("POST").uri("/x");
+    if let Some(ct) = &r.ctype {
+        b = b.header("content-type", ct.as_str());
+    }
+    b.body(axum::body::Body::from(r.body.clone())).unwrap()
+}
+
+async fn axum_resp(resp: axum::response::Response) -> Obs {
+    let status = resp.status().as_u16();
+    let ct = resp.headers().get("content-type").and_then(|v| v.to_str().ok()).map(|s| s.to_string());
+    let body = axum::body::to_bytes(resp.into_body(), usize::MAX).await.map(|b| b.to_vec()).unwrap_or_default();
+    Obs::Rejected(status, ct, body)
+}
+
+async fn axum_json<T: Deserr<JsonError> + ToModel + 'static>(r: &Req) -> (Obs, Obs, Class) {
+    let got = match AxumJson::<T, JsonError>::from_request(axum_req(r), &()).await {
+        Ok(v) => Obs::Ok(v.into_inner().to_model()),
+        Err(rej) => axum_resp(rej.into_response()).await,
+    };
+    let (want, class) = match axum::Json::<J>::from_request(axum_req(r), &()).await {
+        Err(rej) => (axum_resp(rej.into_response()).await, Class::FrameworkRejection),
+        Ok(axum::Json(doc)) => match deserr::deserialize::<T, _, JsonError>(doc) {
+            Ok(v) => (Obs::Ok(v.to_model()), Class::WellTyped),
+            // "status 400 with the message as body"
+            Err(e) => (Obs::Rejected(400, None, e.to_string().into_bytes()), Class::DeserrFailure),
+        },
+    };
+    (got, want, class)
+}
+
+async fn actix_query<T: Deserr<JsonError> + ToModel + 'static>(qs: &str) -> (Obs, Obs, Class) {
+    let uri = format!("/x?{qs}");
+    let mk = || actix_web::test::TestRequest::get().uri(&uri).to_http_parts();
+    let (req, mut pl) = mk();
+    // what the request really carries (the URI may have been normalised)
+    let carried = req.query_string().to_string();
+    let got = match AwebQueryParameter::<T, JsonError>::from_request(&req, &mut pl).await {
+        Ok(v) => Obs::Ok(v.into_inner().to_model()),
+        Err(e) => actix_resp(e).await,
+    };
+    let (want, class) = match actix_web::web::Query::<J>::from_query(&carried) {
+        Err(e) => (actix_resp(e.into()).await, Class::FrameworkRejection),
+        Ok(doc) => match deserr::deserialize::<T, _, JsonError>(doc.into_inner()) {
+            Ok(v) => (Obs::Ok(v.to_model()), Class::WellTyped),
+            Err(e) => (Obs::Rejected(400, Some("text/plain".into()), e.to_string().into_bytes()), Class::DeserrFailure),
+        },
+    };
+    // from_query directly, too
+    let direct = match AwebQueryParameter::<T, JsonError>::from_query(&carried) {
+        Ok(v) => Obs::Ok(v.into_inner().to_model()),
+        Err(e) => actix_resp(e).await,
+    };
+    if direct != got {
+        return (direct, got, class);
+    }
+    (got, want, class)
+}
+
+const TARGETS: &[&str] = &["Point", "Strict", "Camel", "Shape", "Vec<Point>"];
+
+fn target_ty(i: usize) -> Ty {
+    match i {
+        0 => Point::ty(),
+        1 => Strict::ty(),
+        2 => Camel::ty(),
+        3 => Shape::ty(),
+        _ => <Vec<Point>>::ty(),
+    }
+}
+
+fn same(got: &Obs, want: &Obs) -> bool {
+    match (got, want) {
+        (Obs::Ok(a), Obs::Ok(b)) => a == b,
+        (Obs::Rejected(s1, c1, b1), Obs::Rejected(s2, c2, b2)) => {
+            // content type is compared only where the reference names one
+            s1 == s2 && b1 == b2 && (c2.is_none() || c1.as_deref().map(|c| c.starts_with(c2.as_deref().unwrap())).unwrap_or(false))
+        }
+        _ => false,
+    }
+}
+
+fn decode(case: &Case) -> Option<(String, Req)> {
+    let PV::Map(m) = &case.payload else { return None };
+    let get = |k: &str| m.iter().find(|(kk, _)| kk == k).map(|x| &x.1);
+    let kind = match get("kind")? {
+        PV::Str(s) => s.clone(),
+        _ => return None,
+    };
+    let ctype = match get("ctype") {
+        Some(PV::Str(s)) => Some(s.clone()),
+        _ => None,
+    };
+    let body = match get("body")? {
+        PV::Seq(s) => s.iter().filter_map(|b| if let PV::Int(i) = b { Some(*i as u8) } else { None }).collect(),
+        _ => return None,
+    };
+    Some((kind, Req { body, ctype }))
+}
+
+thread_local! {
+    static RT: (tokio::runtime::Runtime, tokio::task::LocalSet) = (
+        tokio::runtime::Builder::new_current_thread().enable_all().build().unwrap(),
+        tokio::task::LocalSet::new(),
+    );
+}
+
+fn block<F: std::future::Future>(f: F) -> F::Output {
+    RT.with(|(rt, ls)| ls.block_on(rt, f))
+}
+
+fn test(case: &Case, stats: Option<&mut Stats>) -> Verdict {
+    let Some((kind, req)) = decode(case) else { return Verdict::Ok };
+    let t = case.ty % TARGETS.len();
+    let results: Vec<(&'static str, Obs, Obs, Class)> = match kind.as_str() {
+        "json" => {
+            let (a, x) = block(async {
+                match t {
+                    0 => (actix_json::<Point>(&req).await, axum_json::<Point>(&req).await),
+                    1 => (actix_json::<Strict>(&req).await, axum_json::<Strict>(&req).await),
+                    2 => (actix_json::<Camel>(&req).await, axum_json::<Camel>(&req).await),
+                    3 => (actix_json::<Shape>(&req).await, axum_json::<Shape>(&req).await),
+                    _ => (actix_json::<Vec<Point>>(&req).await, axum_json::<Vec<Point>>(&req).await),
+                }
+            });
+            vec![("actix-json", a.0, a.1, a.2), ("axum-json", x.0, x.1, x.2)]
+        }
+        "query" => {
+            let qs = String::from_utf8_lossy(&req.body).to_string();
+            // the request line cannot carry arbitrary bytes
+            if !qs.bytes().all(|b| b.is_ascii_graphic()) || qs.contains('#') || qs.contains('?') {
+                return Verdict::Ok;
+            }
+            let q = block(actix_query::<QSearch>(&qs));
+            vec![("actix-query", q.0, q.1, q.2)]
+        }
+        _ => return Verdict::Ok,
+    };
+    if let Some(st) = stats {
+        st.executions += 2 * results.len() as u64;
+        for (which, _, want, class) in &results {
+            st.class(&format!("{which}: {class:?}"));
+            let nested = matches!(want, Obs::Ok(_)) && case.payload.size() > 40;
+            if *class != Class::WellTyped || nested {
+                st.nontrivial(&(which, &case.payload));
+            }
+        }
+        if st.want_sample() {
+            st.samples.push(json!({"target": if kind == "query" { "QSearch" } else { TARGETS[t] }, "kind": kind, "content_type": req.ctype,
+                "body": String::from_utf8_lossy(&req.body), "observed": results.iter().map(|(w, g, _, c)| json!({"extractor": w, "class": format!("{c:?}"), "outcome": show(g)})).collect::<Vec<_>>()}));
+        }
+    }
+    for (which, got, want, class) in &results {
+        if !same(got, want) {
+            let aspect = match (got, want) {
+                (Obs::Ok(_), Obs::Ok(_)) => "different-value",
+                (Obs::Ok(_), Obs::Rejected(..)) => "accepted-what-the-reference-rejects",
+                (Obs::Rejected(..), Obs::Ok(_)) => "rejected-what-the-reference-accepts",
+                _ => "rejection-differs",
+            };
+            return Verdict::Violation(
+                format!("C20|{which}|{aspect}|{class:?}"),
+                json!({"what": format!("{which}: extractor gave {} but the framework's own extractor composed with deserr::deserialize gives {}", show(got), show(want)),
+                       "content_type": req.ctype, "body": String::from_utf8_lossy(&req.body)}),
+            );
+        }
+    }
+    Verdict::Ok
+}
+
+fn gen() -> GenFn {
+    Arc::new(move |rng| {
+        let t = rng.random_range(0..TARGETS.len());
+        let query = rng.random_range(0..4) == 0;
+        let mut g = Gen::new(rng, GenCfg { fault: 0.0, plain_text: false, ..GenCfg::default() });
+        let (kind, body, ctype): (&str, Vec<u8>, Option<String>) = if query {
+            let keys = ["q", "pageSize", "sortBy", "page_size", "Q", "x", "sort", ""];
+            let vals = ["abc", "10", "a%20b", "%zz", "%", "a+b", "", "%E6%97%A5", "a=b", "1,2"];
+            let n = g.below(5);
+            let mut parts: Vec<String> = vec![];
+            if g.chance(0.8) {
+                parts.push(format!("q={}", g.pick(&vals)));
+            }
+            for _ in 0..n {
+                match g.below(8) {
+                    0 => parts.push(String::new()),
+                    1 => parts.push(g.pick(&keys).to_string()),
+                    2 => parts.push(format!("={}", g.pick(&vals))),
+                    _ => parts.push(format!("{}={}", g.pick(&keys), g.pick(&vals))),
+                }
+            }
+            ("query", parts.join("&").into_bytes(), None)
+        } else {
+            let ty = target_ty(t);
+            let class = g.below(10);
+            let doc = match class {
+                0..=3 => {
+                    g.cfg.fault = 0.0;
+                    g.typed(&ty, 0)
+                }
+                4..=6 => {
+                    g.cfg.fault = 0.3;
+                    g.typed(&ty, 0)
+                }
+                7 => g.blind(0),
+                _ => {
+                    g.cfg.fault = 0.0;
+                    g.typed(&ty, 0)
+                }
+            };
+            let mut text = doc.to_json().map(|j| j.to_string()).unwrap_or_else(|| "null".into()).into_bytes();
+            if class >= 8 {
+                // malformed: truncate or flip a byte
+                if !text.is_empty() {
+                    if g.chance(0.5) {
+                        let k = g.below(text.len());
+                        text.truncate(k);
+                    } else {
+                        let k = g.below(text.len());
+                        text[k] = *g.pick(&[b'{', b'}', b'"', b',', b'x', 0xff, b' ', b':']);
+                    }
+                }
+            }
+            if g.chance(0.03) {
+                text.clear();
+            }
+            let ctype = match g.below(12) {
+                0 => None,
+                1 => Some("text/plain"),
+                2 => Some("application/json; charset=utf-8"),
+                3 => Some("application/vnd.api+json"),
+                4 => Some("APPLICATION/JSON"),
+                5 => Some("application/jsonx"),
+                _ => Some("application/json"),
+            };
+            ("json", text, ctype.map(|s| s.to_string()))
+        };
+        let mut m = vec![("kind".to_string(), PV::str(kind))];
+        if let Some(c) = ctype {
+            m.push(("ctype".to_string(), PV::Str(c)));
+        }
+        m.push(("body".to_string(), PV::Seq(body.into_iter().map(|b| PV::Int(b as u64)).collect())));
+        Case { ty: t, payload: PV::Map(m), script: Script::all_continue(), aux: 0, faults: 0 }
+    })
+}
+
+fn case_json(c: &Case) -> J {
+    let d = decode(c);
+    json!({"target": c.ty, "payload": c.payload.encode(),
+           "kind": d.as_ref().map(|x| x.0.clone()), "content_type": d.as_ref().and_then(|x| x.1.ctype.clone()),
+           "body_text": d.as_ref().map(|x| String::from_utf8_lossy(&x.1.body).to_string())})
+}
+
+fn main() {
+    let args: Vec<String> = std::env::args().collect();
+    if args.len() < 3 {
+        eprintln!("usage: dv_http C20 <quick|thorough> | --replay <file>");
+        std::process::exit(2);
+    }
+    if std::env::var("VERIF_DEBUG").is_err() {
+        std::panic::set_hook(Box::new(|_| {}));
+    }
+    if args[1] == "--replay" {
+        let s = std::fs::read_to_string(&args[2]).unwrap_or_default();
+        let Ok(j) = serde_json::from_str::<J>(&s) else { std::process::exit(2) };
+        let Ok(payload) = PV::decode(&j["case"]["payload"]) else { std::process::exit(2) };
+        let case = Case { ty: j["case"]["target"].as_u64().unwrap_or(0) as usize, payload, script: Script::all_continue(), aux: 0, faults: 0 };
+        match test(&case, None) {
+            Verdict::Violation(sig, d) => {
+                println!("C20 replay: VIOLATED [{sig}] {d}");
+                std::process::exit(1);
+            }
+            _ => {
+                println!("C20 replay: the property holds on this request");
+                std::process::exit(0);
+            }
+        }
+    }
+    let tier = if args[2] == "thorough" { Tier::Thorough } else { Tier::Quick };
+    let mut rep = Report::new(
+        "C20",
+        tier,
+        "cases = requests: JSON bodies (well-typed for the target / ill-typed / arbitrary documents / malformed by truncation or byte flip / empty) x content types (application/json, charset and +json variants, upper case, text/plain, look-alike, absent) \
+         for targets Point, Strict, Camel, Shape, Vec<Point> through AwebJson and AxumJson; query strings (well-formed, repeated keys, percent-escapes, malformed escapes, empty keys/values, unknown keys) through AwebQueryParameter (from_request and from_query); \
+         oracle (differential): extractor outcome == the framework's own Json<Value> / Query<Value> extractor on an identical request composed with deserr::deserialize: equal values; or status 400 with the JsonError text as body (actix: text/plain); or the framework's rejection with identical status and body; \
+         non-trivial = the case is a deserr failure or a framework rejection, or a large well-typed document; distinct by (extractor, request)",
+    );
+    let known = open_known("C20");
+    let w: usize = std::env::var("VERIF_WORKERS").ok().and_then(|s| s.parse().ok()).unwrap_or(16);
+    let n = tier.pick(160_000u32, 4_000_000u32) / w as u32;
+    let out = run_cases("C20", rep.seed, w, n, gen(), move |case, stats| match test(case, stats) {
+        Verdict::Violation(sig, _) if known.contains_key(&sig) => Verdict::Known(sig),
+        v => v,
+    });
+    rep.stats = out.stats;
+    for f in out.failures {
+        rep.failures.push((f.signature.clone(), f.details.clone(), Some(case_json(&f.case))));
+    }
+    // all classes must be populated, otherwise the run is inconclusive (infrastructure, not a verdict)
+    let need = ["actix-json: WellTyped", "actix-json: DeserrFailure", "actix-json: FrameworkRejection", "axum-json: WellTyped", "axum-json: DeserrFailure", "axum-json: FrameworkRejection", "actix-query: WellTyped", "actix-query: DeserrFailure"];
+    let missing: Vec<&str> = need.iter().filter(|c| rep.stats.classes.get(**c).copied().unwrap_or(0) == 0).copied().collect();
+    let had_failures = !rep.failures.is_empty();
+    let code = rep.finish();
+    if !missing.is_empty() && !had_failures {
+        eprintln!("INCONCLUSIVE: classes not populated: {missing:?}");
+        std::process::exit(2);
+    }
+    std::process::exit(code);
+}
